@@ -113,7 +113,18 @@ fn new_attr(key: &str, raw: &str) -> Attr {
 
 /// one mutation; `None` when it does not apply to this tree
 pub fn mutate(g: &mut G, nodes: &mut Vec<Node>) -> Option<String> {
-    match g.rng.below(13) {
+    match g.rng.below(14) {
+        13 => {
+            // cb / mb of 2^63 or more: `vec![true; cb]` / `vec![false; mb]` panic with "capacity
+            // overflow" before anything is allocated (the model's `alloc` outcome at cap = isize::MAX).
+            // Values below 2^63 are never used here: they would really be allocated.
+            let key = *g.rng.pick(&["cb", "mb"]);
+            let p = pick_elem(g, nodes, "line", Some("sourcefile"))?;
+            let v = *g.rng.pick(&["9223372036854775808", "18446744073709551615", "+9223372036854775813", "12345678901234567890"]);
+            let (sh, _) = elem_mut(nodes, &p);
+            sh.attr_mut(key)?.raw = v.to_string();
+            Some(format!("hugealloc.line.{}", key))
+        }
         0 => {
             // drop a required attribute
             let specs: &[(&str, Option<&str>, &str)] = &[
